@@ -65,6 +65,16 @@ Theorem C17_failing_open_releases : forall v fuel w s n rw s',
 Proof. exact failing_open_ledger. Qed.
 Print Assumptions C17_failing_open_releases.
 
+(* refused opens, every refusal branch the world can mark (missing; not a database; a directory; a database that
+   ADF_Database_Open rejects after ADFI_open_file opened it -- the parameter of KBadHdr is the ADF error of the branch): from
+   ANY state, both variants, the call returns an error, the cgio table is as it was, and the ADF layer holds exactly what it
+   held: same ledger, same reference counts, every entry in use untouched *)
+Theorem C17_refused_open_keeps_holdings : forall v fuel w s n rw s' r,
+  refused (kind_of w n) = true -> cgio_open_file v fuel w s n rw = Some (s', r) ->
+  r = None /\ same_holdings (io_adf s) (io_adf s') /\ iol s' = iol s /\ nopen s' = nopen s.
+Proof. exact refused_open_keeps_holdings. Qed.
+Print Assumptions C17_refused_open_keeps_holdings.
+
 Theorem C17_failing_link_open_releases : forall v fuel w a n a',
   adf_database_open v fuel w a n true = Some (a', None) -> ledger a' = ledger a.
 Proof. exact failing_link_open_ledger. Qed.
@@ -169,3 +179,9 @@ Example C17_forced_close_pairing_example :
   forced_close ps (fold_left h5step [HNode; HFailedRead] no_ids) = mkids 0 1 0 0 /\
   file_released (forced_close ps (fold_left h5step [HNode; HFailedRead] no_ids)) = false.
 Proof. exact forced_close_pairing_example. Qed.
+
+Example C17_refused_open_example :
+  exists s rs, run Cur 1000 w5 io_init [] [OOpen 1 false; OOpen 0 false; OOpen 1 true; OWalk 1 [(1, false)]; OOpen 1 false] = Some (s, [1], rs) /\
+               rs = [ResOpen None; ResOpen (Some 1); ResOpen None; ResWalk false; ResOpen None] /\ ledger (io_adf s) = [0] /\
+               nopen s = 1 /\ in_use (slot_at (io_adf s) 0) = 1 /\ in_use (slot_at (io_adf s) 1) = 0.
+Proof. exact refused_example. Qed.
